@@ -64,66 +64,91 @@ Section Laws.
     end.
 
   Variable D : key -> bytes.
+  Variable DS : key -> payload.
 
   Fixpoint links_ok (t : tree) : Prop :=
     match t with
     | Nil => True
     | Node _ p _ sub rest =>
-        (match p with PFile d i dv n => (1 < n)%N -> d = D (i, dv) | _ => True end)
+        (match p with
+         | PFile d i dv n => (1 < n)%N -> d = D (i, dv)
+         | PSymlink _ i dv n => (1 < n)%N -> p = DS (i, dv)
+         | PDev _ _ i dv n => (1 < n)%N -> p = DS (i, dv)
+         | _ => True
+         end)
         /\ links_ok sub /\ links_ok rest
     end.
 
   Definition inv (ix : list (key * bytes)) : Prop := forall k d, lookup k ix = Some d -> d = D k.
+  Definition inv2 (sx : list (key * payload)) : Prop := forall k p, lookup k sx = Some p -> p = DS k.
 
-  Lemma restore_snap t : forall ix,
-    shape_ok t -> links_ok t -> incl (blobs chunk t) (blobs chunk fs) -> inv ix ->
-    exists ix', restore dec st (snap H chunk t) ix = Some (t, ix') /\ inv ix'.
+  Lemma place_ok links k own sx :
+    inv2 sx -> ((1 < links)%N -> own = DS k) ->
+    exists sx', place links k own sx = (own, sx') /\ inv2 sx'.
   Proof.
-    induction t as [|n p m sub IHs rest IHr]; intros ix Hs Hl Hi Hv.
-    - exists ix. split; [reflexivity | exact Hv].
+    intros Hv Ho. unfold place. destruct (N.ltb 1 links) eqn:El.
+    - apply N.ltb_lt in El. specialize (Ho El).
+      destruct (lookup k sx) as [p|] eqn:Ek.
+      + rewrite (Hv _ _ Ek), <- Ho. exists sx. split; [reflexivity | exact Hv].
+      + exists ((k, own) :: sx). split; [reflexivity|].
+        intros k1 p1. cbn [lookup]. destruct (key_eqb k1 k) eqn:Eq.
+        * apply key_eqb_eq in Eq. subst k1. intros E1; inversion E1; subst p1. exact Ho.
+        * apply Hv.
+    - exists sx. split; [reflexivity | exact Hv].
+  Qed.
+
+  Lemma restore_snap t : forall ix sx,
+    shape_ok t -> links_ok t -> incl (blobs chunk t) (blobs chunk fs) -> inv ix -> inv2 sx ->
+    exists ix' sx', restore dec st (snap H chunk t) ix sx = Some (t, ix', sx') /\ inv ix' /\ inv2 sx'.
+  Proof.
+    induction t as [|n p m sub IHs rest IHr]; intros ix sx Hs Hl Hi Hv Hw.
+    - exists ix, sx. split; [reflexivity | split; assumption].
     - cbn [shape_ok] in Hs. destruct Hs as [Hp [Hss Hsr]].
       cbn [links_ok] in Hl. destruct Hl as [Hlp [Hls Hlr]].
       cbn [blobs] in Hi. apply incl_app_inv in Hi as [Hi1 Hi2]. apply incl_app_inv in Hi2 as [Hi2 Hi3].
-      destruct p as [d i dv nl| |tg|ch dn|]; cbn [snap node_of restore].
+      destruct p as [d i dv nl| |tg i dv nl|ch dn i dv nl|]; cbn [snap node_of restore].
       + subst sub. rewrite (fetch_ok d Hi1).
         destruct (N.ltb 1 nl) eqn:El.
         * apply N.ltb_lt in El. specialize (Hlp El).
           destruct (lookup (i, dv) ix) as [d0|] eqn:Ek.
           -- assert (d0 = d) by (rewrite (Hv _ _ Ek), Hlp; reflexivity). subst d0.
-             destruct (IHr ix Hsr Hlr Hi3 Hv) as [ix' [E Hv']]. cbn [snap] in E. rewrite E.
-             exists ix'. split; [reflexivity | exact Hv'].
+             destruct (IHr ix sx Hsr Hlr Hi3 Hv Hw) as [ix' [sx' [E [Hv' Hw']]]]. cbn [snap] in E. rewrite E.
+             exists ix', sx'. split; [reflexivity | split; assumption].
           -- assert (Hv1 : inv (((i, dv), d) :: ix)).
              { intros k d1. cbn [lookup]. destruct (key_eqb k (i, dv)) eqn:Eq.
                - apply key_eqb_eq in Eq. subst k. intros E1; inversion E1; subst d1. exact Hlp.
                - apply Hv. }
-             destruct (IHr _ Hsr Hlr Hi3 Hv1) as [ix' [E Hv']]. cbn [snap] in E. rewrite E.
-             exists ix'. split; [reflexivity | exact Hv'].
-        * destruct (IHr ix Hsr Hlr Hi3 Hv) as [ix' [E Hv']]. cbn [snap] in E. rewrite E.
-          exists ix'. split; [reflexivity | exact Hv'].
-      + destruct (IHs ix Hss Hls Hi2 Hv) as [ix1 [E1 Hv1]]. rewrite E1.
-        destruct (IHr ix1 Hsr Hlr Hi3 Hv1) as [ix' [E Hv']]. rewrite E.
-        exists ix'. split; [reflexivity | exact Hv'].
-      + subst sub. destruct (IHr ix Hsr Hlr Hi3 Hv) as [ix' [E Hv']]. rewrite E.
-        exists ix'. split; [reflexivity | exact Hv'].
-      + subst sub. destruct (IHr ix Hsr Hlr Hi3 Hv) as [ix' [E Hv']]. rewrite E.
-        exists ix'. split; [reflexivity | exact Hv'].
-      + subst sub. destruct (IHr ix Hsr Hlr Hi3 Hv) as [ix' [E Hv']]. rewrite E.
-        exists ix'. split; [reflexivity | exact Hv'].
+             destruct (IHr _ sx Hsr Hlr Hi3 Hv1 Hw) as [ix' [sx' [E [Hv' Hw']]]]. cbn [snap] in E. rewrite E.
+             exists ix', sx'. split; [reflexivity | split; assumption].
+        * destruct (IHr ix sx Hsr Hlr Hi3 Hv Hw) as [ix' [sx' [E [Hv' Hw']]]]. cbn [snap] in E. rewrite E.
+          exists ix', sx'. split; [reflexivity | split; assumption].
+      + destruct (IHs ix sx Hss Hls Hi2 Hv Hw) as [ix1 [sx1 [E1 [Hv1 Hw1]]]]. rewrite E1.
+        destruct (IHr ix1 sx1 Hsr Hlr Hi3 Hv1 Hw1) as [ix' [sx' [E [Hv' Hw']]]]. rewrite E.
+        exists ix', sx'. split; [reflexivity | split; assumption].
+      + subst sub. destruct (place_ok nl (i, dv) (PSymlink tg i dv nl) sx Hw Hlp) as [sx1 [Ep Hw1]]. rewrite Ep.
+        destruct (IHr ix sx1 Hsr Hlr Hi3 Hv Hw1) as [ix' [sx' [E [Hv' Hw']]]]. rewrite E.
+        exists ix', sx'. split; [reflexivity | split; assumption].
+      + subst sub. destruct (place_ok nl (i, dv) (PDev ch dn i dv nl) sx Hw Hlp) as [sx1 [Ep Hw1]]. rewrite Ep.
+        destruct (IHr ix sx1 Hsr Hlr Hi3 Hv Hw1) as [ix' [sx' [E [Hv' Hw']]]]. rewrite E.
+        exists ix', sx'. split; [reflexivity | split; assumption].
+      + subst sub. destruct (IHr ix sx Hsr Hlr Hi3 Hv Hw) as [ix' [sx' [E [Hv' Hw']]]]. rewrite E.
+        exists ix', sx'. split; [reflexivity | split; assumption].
   Qed.
 
   Lemma restore_backup_id_c : shape_ok fs -> links_ok fs ->
     restore_backup H chunk cfg enc dec layout c fs = Some fs.
   Proof.
     intros Hs Hl. unfold restore_backup.
-    destruct (restore_snap fs [] Hs Hl (incl_refl _)) as [ix' [E _]].
+    destruct (restore_snap fs [] [] Hs Hl (incl_refl _)) as [ix' [sx' [E _]]].
+    - intros k d Hk; discriminate.
     - intros k d Hk; discriminate.
     - fold st. rewrite E. reflexivity.
   Qed.
   End OneCfg.
 
-  Lemma cfg_irrelevant_c D c1 c2 : shape_ok fs -> links_ok D fs ->
+  Lemma cfg_irrelevant_c D DS c1 c2 : shape_ok fs -> links_ok D DS fs ->
     restore_backup H chunk cfg enc dec layout c1 fs = restore_backup H chunk cfg enc dec layout c2 fs.
-  Proof. intros Hs Hl. rewrite (restore_backup_id_c c1 D Hs Hl), (restore_backup_id_c c2 D Hs Hl). reflexivity. Qed.
+  Proof. intros Hs Hl. rewrite (restore_backup_id_c c1 D DS Hs Hl), (restore_backup_id_c c2 D DS Hs Hl). reflexivity. Qed.
 End Laws.
 
 (* ================= Part B ================= *)
@@ -249,9 +274,10 @@ Definition ex_fs : tree :=
     (Node (str "a") (PFile (hex "0102030405") 7 1 2) ex_meta Nil
     (Node (str "b") (PFile (hex "0102030405") 7 1 2) ex_meta Nil
     (Node (str "c") (PFile [] 8 1 1) ex_meta Nil
-    (Node (str "l") (PSymlink (hex "fe2f")) ex_meta Nil
-    (Node (str "p") PFifo ex_meta Nil Nil)))))
-    (Node (str "z") (PDev true 259) ex_meta Nil Nil).
+    (Node (str "l") (PSymlink (hex "fe2f") 9 1 2) ex_meta Nil
+    (Node (str "m") (PSymlink (hex "fe2f") 9 1 2) ex_meta Nil
+    (Node (str "p") PFifo ex_meta Nil Nil))))))
+    (Node (str "z") (PDev true 259 10 1 1) ex_meta Nil Nil).
 Definition ex_enc (c : bool) (b : bytes) : bytes := if c then 1%N :: b else 0%N :: rev b.
 Definition ex_dec (b : bytes) : option bytes :=
   match b with 1%N :: r => Some r | 0%N :: r => Some (rev r) | _ => None end.
@@ -265,13 +291,21 @@ Example c01_nonvacuous :
 Proof. vm_compute. repeat split. Qed.
 
 
-(* F-C01-1 (known finding): hard links between symlinks are not recreated.  The observation made on
-   restic (two symlinks sharing an inode in the source, two inodes after restore) fails the oracle. *)
+(* Regression examples for the two defects found with this check and since repaired in /repo
+   (F-C01-1 hard links between symlinks, F-C01-2 mtimes outside 1678..2262): the oracle accepts the
+   faithful restore and rejects what the defective code produced. *)
 Definition ex_sl (name : bytes) (ino nlink : N) : ent :=
   mkE [name] 2 0 [] (str "some/target") 0 134218239 1600000000%Z 1 0 0 [] ino 65024 nlink.
-Example c01_hardlinked_symlink_refuted :
+Example c01_hardlinked_symlink_regression :
   same_tree [ex_sl (str "link-a") 11 2; ex_sl (str "link-b") 11 2]
-            [ex_sl (str "link-a") 21 1; ex_sl (str "link-b") 22 1] = false
+            [ex_sl (str "link-a") 21 2; ex_sl (str "link-b") 21 2] = true
   /\ same_tree [ex_sl (str "link-a") 11 2; ex_sl (str "link-b") 11 2]
-               [ex_sl (str "link-a") 21 2; ex_sl (str "link-b") 21 2] = true.
+               [ex_sl (str "link-a") 21 1; ex_sl (str "link-b") 22 1] = false.
+Proof. vm_compute. split; reflexivity. Qed.
+
+Definition ex_ff (mt : Z) (ino : N) : ent :=
+  mkE [str "far-future"] 0 1 (hex "00") [] 0 420 mt 5 0 0 [] ino 65024 1.
+Example c01_far_mtime_regression :
+  same_tree [ex_ff 9300000000 11] [ex_ff 9300000000 21] = true
+  /\ same_tree [ex_ff 9300000000 11] [ex_ff (-2147483648) 21] = false.
 Proof. vm_compute. split; reflexivity. Qed.
